@@ -39,7 +39,7 @@ manifest = {
         "serves_properties": [c["property_id"] for c in checks],
         "kind_free_text": "Lean 4 theorems about a hand-written model (lean/CnbVerif/Model) meeting a spec (lean/CnbVerif/Spec); "
                           "declarative parts regenerated from /repo by a syn-based translator (lean/CnbVerif/Gen); behaviour tied by a "
-                          "differential run of the real Rust code (harness/) against the compiled Lean model (lean/Main.lean) with an "
+                          "differential run of the real Rust code (harness/) against the compiled Lean model (lean/MainCxx.lean, one executable per property) with an "
                           "independent spec oracle judging the implementation's observations",
     }],
     "checks": checks,
